@@ -39,3 +39,35 @@ Fixpoint after_slash (s : string) : option string :=
 Definition short_type (t : string) : string := match after_slash t with Some r => r | None => t end.
 Definition helper_name (t : string) : string := snake (short_type t) ++ "_path".
 Definition helper_sig (h : string * string) : string * string := (helper_name (fst h), formatted (tokenize (snd h))).
+
+(* the same search with the visited set keyed by a projection of the address (for instance the short message name) *)
+Section Keyed.
+  Variable next : addr -> list addr.
+  Variable key : addr -> string.
+  Fixpoint dfs_by (n : nat) : list addr -> list addr -> option (list addr) :=
+    fix go (todo seen : list addr) {struct todo} : option (list addr) :=
+      match todo with
+      | [] => Some seen
+      | a :: rest =>
+          if mem_str (key a) (map key seen) then go rest seen
+          else match n with
+               | O => None
+               | S n' => dfs_by n' (next a ++ rest) (a :: seen)
+               end
+      end.
+End Keyed.
+
+(* "Shelf.Details" -> "Details": the part after the last dot *)
+Fixpoint short_name_aux (s acc : string) : string :=
+  match s with
+  | EmptyString => acc
+  | String c s' => if Ascii.eqb c "."%char then short_name_aux s' "" else short_name_aux s' (acc ++ String c "")
+  end.
+Definition short_name (a : addr) : string := short_name_aux a "".
+
+Definition visible_by (key : addr -> string) (sch : vschema) (tbl : rtable) (roots : list addr) : option (list (string * string)) :=
+  match dfs_by (vnext sch) key (length (vuniverse sch roots)) roots [] with
+  | None => None
+  | Some r => Some (flat_map (fun a => match vfind sch a with Some m => helpers_of tbl m | None => [] end) r)
+  end.
+
